@@ -100,11 +100,38 @@ def swap_branches(src: str) -> str:
     return ast.unparse(tree) + "\n"
 
 
+class _AugExpand(ast.NodeTransformer):
+    """self.d[k] op= v  ->  self.d[k] = self.d[k] op v   (entries of dictionaries held by self: numbers or lists,
+    for which the two spellings behave alike; plain names and whole arrays are left alone)"""
+
+    def visit_AugAssign(self, node):
+        t = node.target
+        if isinstance(t, ast.Subscript) and isinstance(t.value, (ast.Attribute, ast.Subscript)) and \
+                ast.unparse(t).startswith("self."):
+            import copy
+            load = copy.deepcopy(t)
+            for n in ast.walk(load):
+                if hasattr(n, "ctx"):
+                    n.ctx = ast.Load()
+            return ast.copy_location(ast.Assign(targets=[t], value=ast.BinOp(left=load, op=node.op, right=node.value)),
+                                     node)
+        return node
+
+
+def aug_expand(src: str) -> str:
+    tree = _AugExpand().visit(ast.parse(src))
+    ast.fix_missing_locations(tree)
+    return ast.unparse(tree) + "\n"
+
+
 EXPERIMENTAL = {}
+WHOLE_PROGRAM = {}
 TRANSFORMS = {"reformat": reformat, "add-docstrings": add_docstrings, "rename-locals": rename_locals,
-              "swap-eq": swap_eq, "swap-branches": swap_branches}
+              "swap-eq": swap_eq, "swap-branches": swap_branches, "aug-expand": aug_expand}
 
 
 def overrides(prog: Program, name: str):
+    if name in WHOLE_PROGRAM:
+        return WHOLE_PROGRAM[name]({m.name: m.source for m in prog.modules.values() if m.source.strip()})
     f = TRANSFORMS.get(name) or EXPERIMENTAL[name]
     return {m.name: f(m.source) for m in prog.modules.values() if m.source.strip()}
